@@ -1,7 +1,7 @@
 (* Extraction of the executable models (ExtrOcamlBasic only: bool, option,
    list, prod, unit, sumbool map to OCaml's; Z/N/positive stay inductive). *)
 From Coq Require Import Extraction ExtrOcamlBasic.
-From STS Require Import Model.Ranges Model.Chunk Model.Queue Model.LogM Model.Stage.
+From STS Require Import Model.Ranges Model.Chunk Model.Queue Model.LogM Model.Stage Model.Sender.
 Extraction Language OCaml.
 Set Extraction Optimize.
 Extraction "model.ml"
@@ -13,4 +13,5 @@ Extraction "model.ml"
   OFIFO OLIFO OALPHA ONONE prio_sorted files_sorted qrun
   search line_matches parse_line line_recv line_sent walk no_sep split join
   init_stage sstep prepare receive settle restart clean timers_fire received_q status_q scan_q
-  ahas alookup log_has SETTLE_FUEL.
+  ahas alookup log_has SETTLE_FUEL
+  run_send on_poll track_add.
